@@ -52,7 +52,6 @@ MODES = ("construct-only", "compute-only", "both", "changed")
 
 
 SIG_UNIFY_DRIFT = "unify-policy-drift"
-DRIFT_CONSUMERS = ("broadcast_to", "reshape", "repeat", "tile")
 NO_SHRINK = ("swv-layout-drift", "reshape-int-slice-pushdown")
 
 
@@ -62,12 +61,13 @@ def unify_setting(pt):
 
 def unify_drift(prog, unify_settings):
     """≥ 2 different (unify policy, limit) settings were in force between construction and materialization, and
-    the program has a consumer that embeds its child's ADVERTISED chunks (broadcast_to, reshape, repeat, tile) above an
-    elemwise op"""
+    the program has an elemwise (binary) op that is consumed by a later step: the consumer (broadcast_to, reshape,
+    sliding-window / tree reduction, …) was built against the chunks the elemwise node ADVERTISED under the
+    first setting, the node is LOWERED under the second one."""
     if len(set(unify_settings)) < 2:
         return False
-    anc = programs.prog_ancestry(prog)
-    return any(st["op"] in DRIFT_CONSUMERS and (set(programs.BINARY) & anc.get(st["args"][0], set())) for st in prog)
+    binouts = {st["out"] for st in prog if st["op"] in programs.BINARY}
+    return any(binouts & set(st.get("args", [])) for st in prog)
 
 
 def classify(prog, msg, unify_settings=()):
@@ -321,7 +321,23 @@ def run_history(ctx, case, count=True, monitor=True):
     for pre in case.get("prelude") or []:
         _run_steps(ctx, pre, [], [], count=False, monitor=False, cleared=True)
     _run_steps(ctx, case, fails, disag, count, monitor, cleared=True)
-    return fails, disag
+    out = []
+    for sig, detail, si in fails:
+        if sig != "history:build-raises-check":
+            out.append((sig, detail, si))
+            continue
+        _, i, msg = detail
+        clear_state()
+        try:
+            with warnings.catch_warnings():
+                warnings.simplefilter("ignore")
+                run_da(case["progs"][i])
+        except Exception:
+            if count:
+                ctx.notes["construction_raises_under_default"] = ctx.notes.get("construction_raises_under_default", 0) + 1
+            continue
+        out.append((classify(case["progs"][i], msg) or "history:build-raises", f"step {si}: building prog {i} raised {msg} (fine from clean registries under the default configuration)", si))
+    return out, disag
 
 
 def _run_steps(ctx, case, fails, disag, count, monitor, cleared):
@@ -340,6 +356,7 @@ def _run_steps(ctx, case, fails, disag, count, monitor, cleared):
         cfgstack = outer.enter_context(contextlib.ExitStack())
         cur_cfg = {}
         useen = []
+        hist_build_errors = []
         for si, st in enumerate(case["steps"]):
             act = st[0]
             try:
@@ -355,6 +372,12 @@ def _run_steps(ctx, case, fails, disag, count, monitor, cleared):
                         envs[i] = run_da(progs[i])
                     except NotImplementedError:
                         envs.pop(i, None)
+                        continue
+                    except ValueError as e:
+                        # refused at construction: C09's only if it depends on the history / configuration
+                        envs.pop(i, None)
+                        if cur_cfg or si > 0:
+                            hist_build_errors.append((si, i, f"{type(e).__name__}: {str(e)[:160]}"))
                         continue
                     for v, x in envs[i].items():
                         names[x.name] = (i, v)
@@ -390,9 +413,11 @@ def _run_steps(ctx, case, fails, disag, count, monitor, cleared):
                 msg = f"{type(e).__name__}: {e}"
                 sig = classify(progs[st[1]] if isinstance(st[1], int) else progs[0], msg, useen) or f"history:raises:{type(e).__name__}"
                 fails.append((sig, f"step {si} {st[:2]} under {cur_cfg} raised {msg[:240]}", si))
+        cfgstack.close()
+        for si, i, msg in hist_build_errors:
+            fails.append(("history:build-raises-check", (si, i, msg), si))
         # ---- monitor the model's cache invariant on the real cache
         if monitor:
-            cfgstack.close()
             try:
                 entries = list(M._LOWER_CACHE.items())
             except RuntimeError:
@@ -417,6 +442,42 @@ def _run_steps(ctx, case, fails, disag, count, monitor, cleared):
                 if count:
                     ctx.notes["optout_lower_once_calls"] = ctx.notes.get("optout_lower_once_calls", 0) + mon.calls
                     ctx.notes["cache_entries_monitored"] = ctx.notes.get("cache_entries_monitored", 0) + len(entries)
+
+
+def shrink_prog(prog, still, max_iter=150):
+    """Verified greedy shrinking of one program: every accepted candidate still fails.  Unlike
+    programs.shrink it never drops "unused" steps unchecked — in C09 a sibling that is merely BUILT is part of the
+    history (it shares singleton nodes and their cached metadata with the failing root)."""
+    prog = list(prog)
+    it = 0
+    changed = True
+    while changed and it < max_iter:
+        changed = False
+        for k in range(len(prog) - 2, -1, -1):
+            out = prog[k]["out"]
+            users = [st for st in prog[k + 1:] if out in st.get("args", []) or st.get("value") == out]
+            it += 1
+            if not users:
+                cand = prog[:k] + prog[k + 1:]
+            elif prog[k]["op"] != "src" and len(prog[k].get("args", [])) == 1:
+                sub = prog[k]["args"][0]
+                cand = []
+                for s2 in prog[:k] + prog[k + 1:]:
+                    s2 = dict(s2)
+                    if "args" in s2:
+                        s2["args"] = [sub if a == out else a for a in s2["args"]]
+                    cand.append(s2)
+            else:
+                continue
+            try:
+                programs.run_np(cand)
+                if still(cand):
+                    prog = cand
+                    changed = True
+                    break
+            except Exception:
+                continue
+    return prog
 
 
 def shrink_history(ctx, case, sig):
@@ -461,7 +522,7 @@ def shrink_history(ctx, case, sig):
         def sf(p, i=i):
             return still(dict(cur, progs=cur["progs"][:i] + [p] + cur["progs"][i + 1:]))
         try:
-            cur["progs"][i] = programs.shrink(cur["progs"][i], sf, max_iter=40)
+            cur["progs"][i] = shrink_prog(cur["progs"][i], sf, max_iter=40)
         except Exception:
             pass
     return cur
@@ -510,7 +571,19 @@ def run_config_case(ctx, case, count=True):
             return None
         except Exception as e:
             msg = f"{type(e).__name__}: {e}"
-            return [(classify(prog, msg) or f"config:build-raises:{type(e).__name__}", f"construction under {pt1} raised {msg[:240]}")]
+            # a construction that also raises under the DEFAULT configuration from clean registries is a C01 matter
+            # (e.g. broadcasting against a size-1 axis chunked (1, 0)); only a config-dependent refusal is C09's
+            clear_state()
+            try:
+                run_da(prog)
+            except Exception:
+                if count:
+                    ctx.notes["construction_raises_under_default"] = ctx.notes.get("construction_raises_under_default", 0) + 1
+                    lst = ctx.extra.setdefault("construction_raises_samples", [])
+                    if len(lst) < 3:
+                        lst.append({"prog": prog, "error": msg[:200]})
+                return None
+            return [(classify(prog, msg) or f"config:build-raises:{type(e).__name__}", f"construction under {pt1} raised {msg[:240]} (fine under the default configuration)")]
         x = env[root]
         if mode == "construct-only":
             check("compute-default", lambda: x.compute(scheduler="sync"), want[root])
@@ -549,7 +622,7 @@ def shrink_config(ctx, case, sig):
             if still(c):
                 cur = c
     try:
-        cur["prog"] = programs.shrink(cur["prog"], lambda p: still(dict(cur, prog=p)), max_iter=60)
+        cur["prog"] = shrink_prog(cur["prog"], lambda p: still(dict(cur, prog=p)), max_iter=80)
     except Exception:
         pass
     return cur
